@@ -20,11 +20,12 @@ VARIABLES l, nrej
 vars == <<l, nrej>>
 UnionOver(n, F(_)) == UNION {F(i) : i \in 1..n}
 NSlots == 3
+IOF == INSTANCE IOFold       \* reader / writer call sequences run inside a thread are judged as in TrIO
 
 CodecFails(s) ==
   LET S == Types[s.tid] IN
   Tag(s.st = 0 /\ s.bytes = Enc(S, s.v), "codec-bytes-in-thread")
-  \cup Tag(s.st2 = 0 /\ s.v2 = s.v, "codec-roundtrip-in-thread")
+  \cup Tag(s.st2 = 0 /\ s.v2 = s.v /\ s.used = Len(s.bytes) /\ s.size = Len(s.bytes), "codec-roundtrip-in-thread")
 
 RECURSIVE Fold(_, _, _)
 \* steps: sequence of steps with 0-based thread ids; tl: function thread -> slot -> value
@@ -32,6 +33,8 @@ Fold(steps, tl, i) ==
   IF i > Len(steps) THEN {}
   ELSE LET s == steps[i] IN
     IF s.op = "codec" THEN CodecFails(s) \cup Fold(steps, tl, i + 1)
+    ELSE IF s.op = "io"       \* a reader / writer owned by the thread behaves as the sequential automaton says
+    THEN {"in-thread:" \o w : w \in IOF!Fails(s)} \cup Fold(steps, tl, i + 1)
     ELSE IF s.op = "rpc"      \* RPC traffic on the thread's own connection must behave as in a sequential run
     THEN UnionOver(Len(s.calls), LAMBDA j : CallFails(Ifaces[s.iface], s.calls[j])) \cup Fold(steps, tl, i + 1)
     ELSE LET r == TLStep(tl, s.t + 1, [op |-> s.op, slot |-> s.slot + 1, val |-> s.val]) IN
